@@ -366,6 +366,11 @@ class Builder:
             """(test expression or None when irrefutable, [names bound to the subject])"""
             if isinstance(p, ast.MatchClass) and not p.patterns and not p.kwd_patterns:
                 return ast.Call(func=ast.Name(id="isinstance", ctx=ast.Load()), args=[name(), p.cls], keywords=[]), []
+            if isinstance(p, ast.MatchClass) and not p.patterns and all(isinstance(q, ast.MatchAs) and q.pattern is None for q in p.kwd_patterns):
+                # Cls(attr=capture, ...): an isinstance test whose captures are the subject's attributes (the attributes exist on every
+                # instance of a declared class, so the implicit hasattr tests are not modelled)
+                caps = [(q.name, ast.Attribute(value=name(), attr=a_, ctx=ast.Load())) for a_, q in zip(p.kwd_attrs, p.kwd_patterns) if q.name]
+                return ast.Call(func=ast.Name(id="isinstance", ctx=ast.Load()), args=[name(), p.cls], keywords=[]), caps
             if isinstance(p, ast.MatchSingleton):
                 return ast.Compare(left=name(), ops=[ast.Is()], comparators=[ast.Constant(value=p.value)]), []
             if isinstance(p, ast.MatchValue):
@@ -387,7 +392,7 @@ class Builder:
         chain = None
         for case in reversed(s.cases):
             t, binds = test_of(case.pattern)
-            body = [ast.Assign(targets=[ast.Name(id=b, ctx=ast.Store())], value=name()) for b in binds] + list(case.body)
+            body = [ast.Assign(targets=[ast.Name(id=b[0] if isinstance(b, tuple) else b, ctx=ast.Store())], value=b[1] if isinstance(b, tuple) else name()) for b in binds] + list(case.body)
             if case.guard is not None:
                 if binds:
                     raise Unsupported(f"match guard over a capture at line {s.lineno}")
@@ -1238,6 +1243,29 @@ class Builder:
                     if all(c_ is not None for c_ in cols) and (isinstance(fn_, Closure) or (isinstance(fn_, tuple) and fn_ and fn_[0] in ("global", "attr", "partial"))):
                         n_ = min(len(c_) for c_ in cols)
                         return ("list", tuple(self.snap(self.apply_any(fn_, tuple(c_[i] for c_ in cols))) for i in range(n_)))
+                    recursive_ = isinstance(fn_, Closure) and any(fn_.node is n_ for n_ in self.__dict__.get("_apply_stack", [])) or (
+                        isinstance(fn_, Closure) and ctx is not None and fn_.node is getattr(ctx, "fn", None))
+                    if not recursive_ and (isinstance(fn_, Closure) or (isinstance(fn_, tuple) and fn_ and fn_[0] == "partial")):
+                        # over sequences of unknown length, map(f, xs, ys) is the generator (f(x, y) for x, y in zip(xs, ys)); a function
+                        # that maps ITSELF over its argument's parts (a recursive converter) stays a call
+                        self.bound_depth += 1
+                        d_ = self.bound_depth
+                        elt_ = None
+                        snap_dec, snap_tr = dict(self.decisions), list(self.trace)
+                        try:
+                            elt_ = self.snap(self.apply_any(fn_, tuple(("bound", d_, i_) for i_ in range(len(args) - 1))))
+                        except Unsupported:
+                            # a function that maps itself over its argument's parts (a recursive converter) stays a call; the case
+                            # decisions taken while trying are forgotten
+                            elt_ = None
+                            self.decisions.clear()
+                            self.decisions.update(snap_dec)
+                            self.trace[:] = snap_tr
+                        finally:
+                            self.bound_depth -= 1
+                        if elt_ is not None:
+                            it_ = args[1] if len(args) == 2 else ("call", ("global", "zip"), tuple(args[1:]), ())
+                            return ("comp", "GeneratorExp", elt_, ((it_, ()),), d_)
                 if q == "isinstance" and len(args) == 2:
                     n = ("call", f, args, kwargs)
                     fo = self.fold(n)
@@ -1457,6 +1485,8 @@ class Builder:
                 self.depth -= 1
         save = (getattr(self, "cur_self_param", None),)
         self.depth += 1
+        stack_ = self.__dict__.setdefault("_apply_stack", [])
+        stack_.append(node)
         try:
             self.run(node.body, env, dctx)
             ret = NONE
@@ -1464,6 +1494,7 @@ class Builder:
             ret = r.value
         finally:
             self.depth -= 1
+            stack_.pop()
         return ret
 
     def construct(self, ci: ClassInfo, args, kwargs, lineno=0):
